@@ -3,6 +3,7 @@
 package main
 
 import (
+	internalstorage "github.com/tokenized/spynode/internal/storage"
 	"bytes"
 	"context"
 	"crypto/sha256"
@@ -952,6 +953,14 @@ func runTxFlow(c *Case) ([]Obs, any) {
 				tx, err := f.node.GetTx(ctx, tu.HashOf(op.Int(0)))
 				if err != nil || tx == nil {
 					return Obs{ERR}
+				}
+				// the stored copy is what was sent: a stored merkle proof is the one the handlers were given, which the
+				// client's verifier accepts for this txid (C04) - so the stored one must verify too
+				if stored, err := internalstorage.FetchTxState(ctx, f.store, tu.HashOf(op.Int(0))); err == nil && stored != nil &&
+					stored.State.MerkleProof != nil {
+					if verr := stored.State.MerkleProof.IsValid(*tx.TxHash()); verr != nil {
+						return Obs{3, tu.ID(tx.TxHash()), int64(len(stored.State.MerkleProof.DuplicatedIndexes))}
+					}
 				}
 				return Obs{OK, tu.ID(tx.TxHash())}
 			case "unconf":
